@@ -65,6 +65,8 @@ def run(F, R):
     # O11: "its ring slot completely written" is relative to the size the device was told (C06.L3 queue_set arguments)
     from .C06 import registration_rule
     registration_rule(F, R, 'O11')
+    # O12: the device reads the available index at the address it was told: transports' queue_set register traces (C10.M2 / C11.W3)
+    transport_registration_rule(F, R, 'O12')
     eps = queue_api_entry_points(F, M)
     R.count('entry_points', len(eps))
     idx_writer_fns = []
